@@ -160,6 +160,50 @@ func (transScenario) Build(cfg string) ([]func(), func(*vsched.Sched) []string) 
 			}
 			prev = n
 		}
+		// C08: once an operator's SetConfigThreadSafe has RETURNED, the override is in force for every transition that
+		// STARTS afterwards: it announces no Opened under ForcedClosed, no Closed under ForceOpen (nobody clearing the
+		// override in this run).  (A first version also bound transitions that were already under way — more than the
+		// property says: it alarmed on the unchanged tree and was corrected.)
+		opsStr := cfgStr(cfg, "ops")
+		if !strings.ContainsAny(opsStr, "ZV") {
+			for ti, op := range opsStr {
+				if op != 'X' && op != 'Y' && op != 'W' {
+					continue
+				}
+				returned := -1
+				for idx, line := range s.Trace {
+					var tid int
+					if _, err := fmt.Sscan(line, &tid); err == nil && tid == ti {
+						returned = idx
+					}
+				}
+				if returned < 0 {
+					continue
+				}
+				firstStep := map[int]int{}
+				for idx, line := range s.Trace {
+					var tid int
+					if _, err := fmt.Sscan(line, &tid); err == nil {
+						if _, seen := firstStep[tid]; !seen {
+							firstStep[tid] = idx
+						}
+					}
+				}
+				for idx := returned + 1; idx < len(s.Trace); idx++ {
+					// only a transition that STARTED after the operator's call had returned is bound by it (C08's last sentence)
+					var tid int
+					if _, err := fmt.Sscan(s.Trace[idx], &tid); err != nil || firstStep[tid] <= returned {
+						continue
+					}
+					if (op == 'Y') && strings.HasSuffix(s.Trace[idx], "deliver-opened") {
+						problems = append(problems, "C08: Opened was announced after SetConfigThreadSafe(ForcedClosed=true) had returned: ForcedClosed did not keep the circuit from opening")
+					}
+					if (op == 'X' || op == 'W') && strings.HasSuffix(s.Trace[idx], "deliver-closed") {
+						problems = append(problems, "C08: Closed was announced after SetConfigThreadSafe(ForceOpen=true) had returned")
+					}
+				}
+			}
+		}
 		last := initOpen
 		if len(rec.log) > 0 {
 			last = rec.log[len(rec.log)-1] == "O"
